@@ -431,19 +431,18 @@ func runC20(t *testing.T, c simrt.Chooser, o Opts) *Out {
 	if cancelled && rd.callsAtCanc > 0 && k > rd.callsAtCanc+1 {
 		out.violate("C20.cancel-stop", "read-after-cancel", "%d read calls after the cancel (calls at cancel %d, total %d)", k-rd.callsAtCanc, rd.callsAtCanc, k)
 	}
-	// time: 5 ms back-off after each unknown error, nothing else (fast consumer, no cancel)
+	// time: "reading continues" - with a consumer that keeps up, the next read follows within a
+	// second of virtual time whatever the previous outcome was (the length of the pause after an
+	// unknown error is the implementation's business: 5 ms today; a pause that grows without bound
+	// or a receiver that falls asleep is not)
 	if sc.SlowEvery == 0 {
 		for i := 0; i+1 < len(rd.callT) && i < len(script); i++ {
 			d := rd.callT[i+1] - rd.callT[i]
-			want := time.Duration(0)
-			if script[i] == oUnknown {
-				want = 5 * time.Millisecond
-			}
 			if cancelled && i+1 >= rd.callsAtCanc-1 {
 				continue
 			}
-			if d != want {
-				out.violate("C20.backoff", "backoff", "virtual time between read call %d (%c) and %d is %v, want %v", i, script[i], i+1, d, want)
+			if d > time.Second {
+				out.violate("C20.stalled", "stalled", "virtual time between read call %d (%c) and %d is %v: reading did not continue", i, script[i], i+1, d)
 				break
 			}
 		}
